@@ -5,7 +5,7 @@ import common as C
 
 ID = "C15"
 LEVEL = "proof"
-COQ_HEADER = "From MiniMcmc Require Import Model.Density."
+COQ_HEADER = "From MiniMcmc Require Import Model.Density Model.Proposal."
 RULE = ("public trait methods of Gaussian2D (logp, unnorm_logp), DiffableGaussian2D (batched and single-point log-density, "
         "gradient through autodiff), Rosenbrock2D (batched/single/gradient), RosenbrockND (d<=32) and IsotropicGaussian (logp in "
         "both argument orders, unnorm_logp, set_seed reproducibility, sample moments) for random means, SPD covariances with "
@@ -127,6 +127,10 @@ def coq_term(case, out):
             parts.append("rbn_eval %s" % ilist(P[k * d:(k + 1) * d]))
     else:
         parts.append("iso_eval %s %s %s" % (idy(bf(case["sigma"])), ilist([bf(x) for x in case["from"]]), ilist([bf(x) for x in case["to"]])))
+        # IsotropicGaussian::sample, bit-exact: three consecutive calls from `from`, fed with the replayed normal draws
+        tb = (lambda b: C.float_to_f32_bits(bf(b))) if f == "f32" else (lambda b: b)
+        parts.append("%s 3%%nat %d %s %s" % ("iso_samples32" if f == "f32" else "iso_samples64", tb(case["sigma"]),
+                                             C.zlist([tb(b) for b in out["normals"]]), C.zlist([tb(b) for b in case["from"]])))
     return " ++ ".join("(%s)" % q for q in parts)
 
 
@@ -243,6 +247,13 @@ def check(case, out, model, who):
         if not near(bf(out["unnorm"]), lo, hi, REL * usc):
             return "IsotropicGaussian::unnorm_logp = %.9g, expected [%.9g, %.9g]" % (bf(out["unnorm"]), float(lo), float(hi))
         nxt()
+        tb = (lambda b: C.float_to_f32_bits(bf(b))) if f == "f32" else (lambda b: b)
+        got = [tb(b) for b in out["draws_a"]]
+        if who == "model" and got != model[pos:]:
+            k = [i for i in range(max(len(got), len(model[pos:]))) if i >= len(got) or i >= len(model[pos:]) or got[i] != model[pos:][i]][0]
+            return ("IsotropicGaussian(std=%r)::sample, value %d of three consecutive calls from %s: implementation %s, "
+                    "(0 + std*z) + current with the replayed standard-normal draws gives %s" % (
+                        sigma, k, frm, got[k] if k < len(got) else None, model[pos:][k] if k < len(model[pos:]) else None))
     return None
 
 
